@@ -148,7 +148,7 @@ def sign_in(v, world, var="srs_frq"):
     if not plain(v):
         return None
     aid = F._intern(("s", var))
-    high = world == "elastic"
+    high = world.split(":")[-1] == "elastic"
     sn, sd = _sign_poly(v.n, aid, high), _sign_poly(v.d, aid, high)
     if sn is None or sd is None or sd == 0:
         return None
@@ -156,14 +156,26 @@ def sign_in(v, world, var="srs_frq"):
 
 
 _NEG = ("not", "invert", "call:np.logical_not", "call:numpy.logical_not", "call:np.invert", "call:np.bitwise_not")
-_ANY = ("call:np.any", "call:np.all", "call:numpy.any", "call:numpy.all", "call:any", "call:all", "call:.any", "call:.all", "call:bool", "call:np.asarray",
-        "call:.nonzero", "where")
+_ANYS = ("call:np.any", "call:numpy.any", "call:any", "call:.any")
+_ALLS = ("call:np.all", "call:numpy.all", "call:all", "call:.all")
+_SAME = ("call:bool", "call:np.asarray", "call:.nonzero", "where", "call:np.flatnonzero")
+_COUNTS = ("call:np.count_nonzero", "red:sum", "call:np.sum", "call:.sum")
+
+
+def _world(world):
+    """(kind of the oscillator looked at, kinds present in the population): 'elastic' / 'rigid' are uniform populations, 'mixed:elastic' / 'mixed:rigid'
+    one oscillator of that kind in a population that has both"""
+    if world.startswith("mixed:"):
+        return world[6:], ("elastic", "rigid")
+    return world, (world,)
 
 
 def wtruth(v, world):
-    """truth of a mask over the oscillators / of a test on such a mask in a uniform world; None when this is not such a value"""
+    """truth, in a world of the oscillators, of a mask over them *at the oscillator looked at* (`ks < 0.005`, `~m`, `m1 & m2`) and of a test on such a
+    mask over the whole population (`np.any(m)`, `m.all()`, `np.count_nonzero(m) > 0`); None when this is not such a value or it is not decided"""
     if world is None or not plain(v):
         return None
+    row, pop = _world(world)
     n = sym_of(v)
     if n == "True":
         return True
@@ -177,14 +189,19 @@ def wtruth(v, world):
         return None
     name = {"call:np.less": "cmp:Lt", "call:np.less_equal": "cmp:LtE", "call:np.greater": "cmp:Gt", "call:np.greater_equal": "cmp:GtE"}.get(name, name)
     if name.startswith("cmp:") and len(args) == 2 and name[4:] in ("Lt", "LtE", "Gt", "GtE"):
-        s = sign_in(worldify(args[0] - args[1], None), world)
+        s = sign_in(worldify(args[0] - args[1], None), row)
         if s is not None and s != 0:
             return (s < 0) if name[4:] in ("Lt", "LtE") else (s > 0)
     if name in _NEG and len(args) == 1:
         t = wtruth(args[0], world)
         return None if t is None else (not t)
-    if name in _ANY and len(args) == 1:
+    if name in _SAME and len(args) == 1:
         return wtruth(args[0], world)
+    if name in _ANYS + _ALLS and len(args) == 1:
+        ts = [wtruth(args[0], r) for r in pop]
+        if any(t is None for t in ts):
+            return None
+        return any(ts) if name in _ANYS else all(ts)
     if name in ("bool:And", "call:np.logical_and", "bool:Or", "call:np.logical_or") and args:
         ts = [wtruth(a, world) for a in args]
         if name in ("bool:And", "call:np.logical_and"):
@@ -195,14 +212,15 @@ def wtruth(v, world):
             return True
         return False if all(t is False for t in ts) else None
     if name.startswith("cmp:") and len(args) == 2 and name[4:] in ("Gt", "NotEq", "Eq", "GtE", "Lt"):
-        # a count of the selected oscillators compared with 0 / 1
+        # a count of the selected oscillators compared with 0 / 1: some oscillator is selected
         for cnt, other, flip in ((args[0], args[1], False), (args[1], args[0], True)):
             uc = unfn(cnt)
-            if uc and uc[0] in ("call:np.count_nonzero", "red:sum", "call:np.sum", "call:.sum") and uc[1] and not isinstance(uc[1][0], str) and other.is_const():
-                t = wtruth(uc[1][0], world)
-                c = other.const_value()
-                if t is None:
+            if uc and uc[0] in _COUNTS and uc[1] and not isinstance(uc[1][0], str) and other.is_const():
+                ts = [wtruth(uc[1][0], r) for r in pop]
+                if any(t is None for t in ts):
                     return None
+                t = any(ts)
+                c = other.const_value()
                 op = name[4:]
                 if flip:
                     op = {"Gt": "Lt", "Lt": "Gt", "GtE": "LtE"}.get(op, op)
@@ -995,7 +1013,7 @@ def _response(ctx, tag, run, ref, where, want_resp):
     except Unsupported as e:
         ctx.error(f"{tag}: response whose peak is taken", st, str(e))
         return
-    if world == "rigid":
+    if world.endswith("rigid"):
         fsl = _frf_factor(run, Zm)
         left = _leftover(run, Zm, fsl)
         if left:
@@ -1154,12 +1172,16 @@ def rule(ctx):
     fn = ctx.src.func(SRS, "srs_frf")
     ref = references()
     # (1) transfer function, expansion, grid, peak, resp
+    words = {"elastic": "elastic oscillators", "rigid": "rigid oscillators", "mixed:elastic": "an elastic oscillator among rigid ones",
+             "mixed:rigid": "a rigid oscillator among elastic ones"}
     for gr in (True, False):
         for single in (False, True):
-            for world in ("elastic", "rigid"):
-                if world == "rigid" and (gr or single):
+            for world in ("elastic", "rigid", "mixed:elastic", "mixed:rigid"):
+                if world.endswith("rigid") and (gr or single):
                     continue
-                tag = f"srs_frf (getresp={gr}, {'one FRF line' if single else 'several FRF lines'}, {world} oscillators)"
+                if world == "mixed:elastic" and single:
+                    continue
+                tag = f"srs_frf (getresp={gr}, {'one FRF line' if single else 'several FRF lines'}, {words[world]})"
                 cfg = dict(getresp=gr, sbq=False, srs_frq="given", rsf=None, single=single, world=world)
                 try:
                     runs = frf_runs(ctx, cfg)
